@@ -80,6 +80,20 @@ Theorem C01_src_reg_capture : forall x w, 0 <= w -> sx_reg_capture x w = x mod 2
 Proof. exact sx_reg_capture_mod. Qed.
 Print Assumptions C01_src_reg_capture.
 
+(* the register rule of _initialize, regenerated from its three statements, is the documented priority
+   register_value_map > reset_value > default_value (the initial state of the reference semantics) *)
+Theorem C01_src_init_reg : forall nl dflt regmap w,
+  sx_init_reg (assoc regmap w) (reset_of nl w) dflt = init_reg nl dflt regmap w.
+Proof. exact sx_init_reg_spec. Qed.
+Print Assumptions C01_src_init_reg.
+
+(* the memory rule of _initialize: the caller's map when given, else an empty dict, read with the default *)
+Theorem C01_src_init_mem : forall (memmap : list (Z * list (Z * Z))) m a dflt,
+  assoc_d (sx_init_mem (match find (fun p => fst p =? m) memmap with Some (_, d) => Some d | None => None end)) a dflt
+  = match find (fun p => fst p =? m) memmap with Some (_, d) => assoc_d d a dflt | None => dflt end.
+Proof. exact sx_init_mem_spec. Qed.
+Print Assumptions C01_src_init_mem.
+
 (* Non-vacuity: a design with a register (reset 5), a truncating subtract, a
    nand, a concat, a select and a memory satisfies wfb; both sides compute the
    same 3-cycle trace. *)
